@@ -40,10 +40,11 @@ ReopenCheck(e, ln) ==
 (* lookups miss rows, ordered scans return keys out of order.  Signature: the table has a B-tree index on an        *)
 (* integer column, a value whose key starts with ff ff (ranks e.ff of the Create event) was written to that column,  *)
 (* and the table has held >= 100 rows (one leaf page holds more than 100 entries, so smaller tables never split).   *)
-BtInit == [meta |-> <<>>, big |-> {}, many |-> {}]
+BtInit == [meta |-> <<>>, big |-> {}, many |-> {}, btTabs |-> {}, crashed |-> {}, stale |-> {}]
 BtCreate(e) ==
   IF Has(e, "kinds") /\ Has(e, "ff")
-    THEN [bt EXCEPT !.meta = [x \in DOMAIN bt.meta \cup {e.t} |->
+    THEN [bt EXCEPT !.btTabs = IF \E j \in DOMAIN e.kinds : e.kinds[j] = "btree" THEN @ \cup {e.t} ELSE @,
+                    !.meta = [x \in DOMAIN bt.meta \cup {e.t} |->
              IF x = e.t THEN [cs |-> {i - 1 : i \in {j \in DOMAIN e.kinds : e.kinds[j] = "btree" /\ e.cols[j] = "int"}},
                               ff |-> {e.ff[i] : i \in DOMAIN e.ff}]
              ELSE bt.meta[x]]]
@@ -59,11 +60,17 @@ BtUpdate(e) ==
     THEN BtWrites(e.t, {<<e.set[i][1], e.set[i][2]>> : i \in DOMAIN e.set}) ELSE bt
 BtKnown(t) == t \in bt.big /\ t \in bt.many
 (* violations of an event on such a table are attributed to the known finding (pin and plan clauses are not) *)
+(* Second manifestation of KF-C10-btree-reattach-after-crash (predicted by spec/Catalog, invariant IndexFresh, and   *)
+(* found by the histories derived from its state graph): when the stale header page does hold an older B-tree - the  *)
+(* table went through an earlier graceful shutdown - the re-attach succeeds and the index silently lacks everything  *)
+(* written since: lookups through that index miss rows.  Signature: the table had a B-tree index when a crash-style  *)
+(* stop happened (bt.crashed), and a later clean Shutdown + Reopen re-attached it (bt.stale).                        *)
+AttrTo(vs, kf) == [i \in DOMAIN vs |-> IF vs[i].kf = "new" /\ vs[i].tag \notin {"C14.pins"} /\ ~IsRangeTag(vs[i].tag)
+                                        THEN [vs[i] EXCEPT !.kf = kf] ELSE vs[i]]
 Attr(vs, ts) ==
-  IF \E t \in ts : BtKnown(t)
-    THEN [i \in DOMAIN vs |-> IF vs[i].kf = "new" /\ vs[i].tag \notin {"C14.pins"} /\ ~IsRangeTag(vs[i].tag)
-                                 THEN [vs[i] EXCEPT !.kf = "KF-C17-btree-ffff-stopper"] ELSE vs[i]]
-    ELSE vs
+  IF \E t \in ts : t \in bt.stale THEN AttrTo(vs, "KF-C10-btree-reattach-after-crash")
+  ELSE IF \E t \in ts : BtKnown(t) THEN AttrTo(vs, "KF-C17-btree-ffff-stopper")
+  ELSE vs
 
 BadValue(rows) == \E i \in DOMAIN rows : \E j \in DOMAIN rows[i] : rows[i][j] = -99
 
@@ -162,8 +169,9 @@ TNext ==
        [] e.ev = "Commit" -> UNCHANGED hvars /\ (IF intxn THEN Commit ELSE Stutter) /\ viol' = AddViol(viol, FailCheck(e, l) \o PinCheck(e, l))
        [] e.ev = "Abort" -> UNCHANGED hvars /\ (IF intxn THEN Abort ELSE Stutter) /\ viol' = AddViol(viol, FailCheck(e, l) \o PinCheck(e, l))
        [] e.ev \in {"Stats", "Shutdown"} -> Stutter /\ viol' = AddViol(viol, FailCheck(e, l)) /\ UNCHANGED hvars
-       [] e.ev = "Crash" -> Stutter /\ viol' = AddViol(viol, FailCheck(e, l)) /\ hadCrash' = TRUE /\ UNCHANGED <<hasBtree, bt>>
-       [] e.ev = "Reopen" -> Stutter /\ viol' = AddViol(viol, ReopenCheck(e, l)) /\ UNCHANGED hvars
+       [] e.ev = "Crash" -> Stutter /\ viol' = AddViol(viol, FailCheck(e, l)) /\ hadCrash' = TRUE /\ UNCHANGED hasBtree /\ bt' = [bt EXCEPT !.crashed = @ \cup bt.btTabs]
+       [] e.ev = "Reopen" -> /\ Stutter /\ viol' = AddViol(viol, ReopenCheck(e, l)) /\ UNCHANGED <<hadCrash, hasBtree>>
+                             /\ bt' = IF e.res = "ok" /\ l > 1 /\ TraceLog[l - 1].ev = "Shutdown" THEN [bt EXCEPT !.stale = @ \cup bt.crashed] ELSE bt
   /\ l' = l + 1
 
 TSpec == TInit /\ [][TNext]_tvars
